@@ -21,17 +21,36 @@ var c15Alphabets = map[string][]rune{
 }
 
 // refDecode is the reference decoding of a token read by the quote state.
+// unspecifiedValue marks a token value no property pins (sameTV treats it as a wildcard): the decoded
+// value of a literal that is not well formed - unterminated, or with a lone quote inside.
+const unspecifiedValue = "\x00unspecified"
+
 func refDecode(kind string, v string) string {
 	r := []rune(v)
 	if len(r) >= 2 && r[0] == r[len(r)-1] {
 		q := string(r[0])
 		inner := string(r[1 : len(r)-1])
 		if kind == "expression" || strings.HasPrefix(kind, "csv") {
+			// quotes inside must come in pairs
+			run := 0
+			for _, ch := range r[1 : len(r)-1] {
+				if ch == r[0] {
+					run++
+				} else {
+					if run%2 != 0 {
+						return unspecifiedValue
+					}
+					run = 0
+				}
+			}
+			if run%2 != 0 {
+				return unspecifiedValue
+			}
 			inner = strings.ReplaceAll(inner, q+q, q)
 		}
 		return inner
 	}
-	return v
+	return unspecifiedValue
 }
 
 // fromQuoteState tells whether a token of the option-free stream was read by the quote state.
@@ -90,7 +109,7 @@ func sameTV(a, b []tokRec) bool {
 		return false
 	}
 	for i := range a {
-		if a[i].typ != b[i].typ || a[i].val != b[i].val {
+		if a[i].typ != b[i].typ || (a[i].val != b[i].val && a[i].val != unspecifiedValue && b[i].val != unspecifiedValue) {
 			return false
 		}
 	}
@@ -231,7 +250,7 @@ func init() {
 	fw.Register(&fw.Check{
 		ID:    "C15",
 		Level: "model_checking",
-		Rule: "(also: 80 boundary characters in every short context and every pattern of <=2 characters repeated up to 1000 times) 4 tokenizers x every string up to the length bound over a 8..12-symbol alphabet (whitespace, comment opener, number, quotes, unknown character, multi-character symbol) x all 128 option sets, plus every sequence of <=3 (thorough 4) lexemes from a vocabulary with quoted strings whose content is a symbol, comment opener or blank; " +
+		Rule: "(also: 121 boundary characters in every short context and every pattern of <=2 characters repeated up to 1000 times) 4 tokenizers x every string up to the length bound over a 8..12-symbol alphabet (whitespace, comment opener, number, quotes, unknown character, multi-character symbol) x all 128 option sets, plus every sequence of <=3 (thorough 4) lexemes from a vocabulary with quoted strings whose content is a symbol, comment opener or blank; " +
 			"oracle: stream(opts) == T(opts, stream(no options)) for a reference transformer that only drops/rewrites whole tokens; inputs whose option-free stream is itself broken are skipped and counted (C04); " +
 			"non-trivial = (input, option set) pairs on which T is not the identity",
 		Assume: []string{"C04 holds for the input (otherwise skipped)", "termination decided by the scanner step budget"},
@@ -275,6 +294,23 @@ func init() {
 				kind := kind
 				ca := tokContextAlphabets[kind]
 				nctx := contextsCount(ca, ctxN)
+				sp = append(sp, fw.Space{Name: "charsweep-doubled-" + kind, N: int64(len(boundaryChars)) * (1 + int64(len(ca))),
+					Run: func(c *fw.Ctx, i int64) {
+						ch := string(boundaryChars[i/(1+int64(len(ca)))])
+						mid := ""
+						if k := i % (1 + int64(len(ca))); k > 0 {
+							mid = string(ca[k-1])
+						}
+						c15Run(c, kind, ch+mid+ch, all)
+					},
+					Repr: func(i int64) string {
+						ch := string(boundaryChars[i/(1+int64(len(ca)))])
+						mid := ""
+						if k := i % (1 + int64(len(ca))); k > 0 {
+							mid = string(ca[k-1])
+						}
+						return fmt.Sprintf("%s tokenizer, input %q (a boundary character on both sides of a short middle)", kind, ch+mid+ch)
+					}})
 				sp = append(sp, fw.Space{Name: "charsweep-" + kind, N: nctx * int64(len(boundaryChars)),
 					Run: func(c *fw.Ctx, i int64) {
 						pre, suf := contextByIndex(ca, ctxN, i%nctx)
